@@ -28,7 +28,10 @@ CHECKS = {
              "against the real verbs on generated programs and compared on outcome, exception class and every Cache field. The oracle evaluates the "
              "clauses on the real code: Polars never raises, alias insertion enables, accepted pipelines equal the Polars result. Partial: adequacy of the "
              "catalogue (accepted => correct) is false on the current tree (known findings D1, D2, D4, D10, D11, D38, D40) and is C01's refinement theorem; "
-             "the 'simple grammar never needs a subquery' clause is checked on the real code only.",
+             "the 'simple grammar never needs a subquery' clause is proved verb by verb (Pdt/Props/C08Simple.lean: shape_verbs_never, ewise_mutate_never, "
+             "arrange_groupby_ok, filter_ok, summarize_ok, with limit_stays_zero / groupBy_stays_empty chaining them along a pipeline) under the local side "
+             "conditions that no predicate mentions a window column and the aggregated columns are element-wise, which the grammar guarantees; the tracking of "
+             "column function types along the pipeline is by the front-end correspondence, not a theorem.",
         design_ref="DESIGN.md section 5, C08",
         note=NOTE_COMMON + "Modelled, not verified: SQLite execution (oracle only). Known findings are matched by trigger predicates (harness/triggers.py).",
     ),
